@@ -6,7 +6,8 @@ Parts (every case is one deterministic run of a real tenpy engine on a 4..8 site
              same-parity steps merged; sums to N_steps on even and on odd bonds.
   ladder   : untruncated evolution to a fixed T with dt = T/n, n in (2, 4, 8); error against expm(-iHT) psi0 (for
              time dependent engines: against the documented product of exp(-i dt H(t_k))) shrinks with the documented
-             order; charge sector, norm and energy conservation.
+             order p (ratio of the two finest errors >= 2^(p-0.6), or error < 1e-11); charge sector, norm and energy
+             conservation.
   hist     : every composition of N_total <= 3 (4 thorough) steps into calls of run / run_evolution /
              prepare_evolve+evolve (plus calls with 0 steps and calls that change dt): evolved_time exact, final
              state independent of the split (untruncated), reported truncation error = sum of the errors of the
@@ -378,11 +379,11 @@ def check_ladder(name, kind, L, which, imag, seed, require_order=True):
                 viol.append(dict(key='static:%s:differs-from-static-engine' % name, what='%s: |psi_td - psi_static| = %.3g for a time-independent parameter' % (case, np.linalg.norm(a['v'] - b['v'])), case=case))
     thr = 2.0 ** (spec['p'] - 0.6)
     if require_order:
-        for i in range(len(errs) - 1):
-            if errs[i + 1] > EXACT and not errs[i] / errs[i + 1] >= thr:
-                viol.append(dict(key='order:%s:%s' % (tag, 'no-convergence' if errs[i] / errs[i + 1] < 1.2 else 'below-documented-order'),
-                                 what='%s: errors %s for dt=T/%s; ratio %.3g < %.3g required for order %d' % (case, errs, list(N_LADDER), errs[i] / errs[i + 1], thr, spec['p']), case=case))
-                break
+        # "error O(t dt^p)" is an asymptotic claim: the finest pair of step sizes decides (coarser ratios can be spoiled by a
+        # competing dt^(p+1) term), errors below EXACT only need to be small
+        if min(errs[-2:]) > EXACT and not errs[-2] / errs[-1] >= thr:
+            viol.append(dict(key='order:%s:%s' % (tag, 'no-convergence' if errs[0] / errs[-1] < 1.2 else 'below-documented-order'),
+                             what='%s: errors %s for dt=T/%s; last ratio %.3g < %.3g required for order %d' % (case, errs, list(N_LADDER), errs[-2] / errs[-1], thr, spec['p']), case=case))
         if not all(np.isfinite(errs)):
             viol.append(dict(key='order:%s:nan' % tag, what='%s: errors %s' % (case, errs), case=case))
     outcome = 'exact' if max(errs) <= EXACT else ('converging' if require_order else 'conservation-only')
